@@ -1,9 +1,5 @@
 package db
 
-import (
-	"slices"
-)
-
 // TODO: DO NOT USE THIS! This is meant to be a temporary replacement for buffered transaction.
 // After state refactor, we can remove this.
 type BufferBatch struct {
@@ -19,7 +15,9 @@ func NewBufferBatch(txn IndexedBatch) *BufferBatch {
 }
 
 func (b *BufferBatch) Put(key, val []byte) error {
-	b.updates[string(key)] = slices.Clone(val)
+	// A nil entry in b.updates marks a deletion, so a nil (empty) value must be kept as a
+	// non-nil empty slice: Put(key, nil) stores an empty value on every backend.
+	b.updates[string(key)] = append([]byte{}, val...)
 	return nil
 }
 
